@@ -19,7 +19,7 @@ RULE = (
     "(b) history: a long-lived process performs 5-30 random parse / truncated-parse / verify / generate / "
     "reflect operations on OTHER schemas (through get_fcp with its default, process-wide logger; in half "
     "of the histories with one long-lived Generator object per plug-in) before generating the target; (c) reuse: the same tree "
-    "object generates twice with each generator and cpp again after dbc and can_c; (d) address reuse: one process generates the schemas in turns for 6-12 rounds, every tree dropped and collected before the next is parsed (trees land on addresses of earlier trees).  Every map is "
+    "object generates twice with each generator, cpp again after dbc and can_c, and every generator again after the Python codec has encoded / decoded a value of every struct with that tree, and into an output directory that already holds the files of an earlier run (one of them with older contents); (d) address reuse: one process generates the schemas in turns for 6-12 rounds, every tree dropped and collected before the next is parsed (trees land on addresses of earlier trees).  Every map is "
     "compared with the PYTHONHASHSEED=0 fresh-process map.  distinct = (schema, generator, "
     "configuration) with a non-empty file map."
 )
@@ -43,6 +43,18 @@ def make_schema(r, i):
         for d in decls:
             if d["kind"] == "impl":
                 d["items"] = [(it[0], it[1], ("s", odd.get(it[2][1], it[2][1]))) if it[0] == "field" and it[1] in ("device", "bus") else it for it in d["items"]]
+    if i % 4 in (1, 3):
+        # a binding whose signals are multiplexed by TWO different selector signals
+        sd = {d["name"]: d for d in decls if d["kind"] == "struct"}
+        for d in decls:
+            if d["kind"] == "impl" and d["protocol"] == "can":
+                fs = [f["name"] for f in sd[d["type"]]["fields"] if f["type"][0] in ("u", "i")]
+                taken = {it[1] for it in d["items"] if it[0] == "signal"}
+                fs = [f for f in fs if f not in taken]
+                if len(fs) >= 4:
+                    d["items"].append(("signal", fs[2], [("mux_count", 2), ("mux_signal", ("s", fs[0]))]))
+                    d["items"].append(("signal", fs[3], [("mux_count", 3), ("mux_signal", ("s", fs[1]))]))
+                    break
     structs = [d["name"] for d in decls if d["kind"] == "struct"]
     # a second protocol on some struct, services for the cpp generator
     decls.append({"kind": "impl", "protocol": r.choice(["uart", "lin", "eth"]), "type": structs[0], "name": None, "items": [("field", "id", 1)]})
@@ -175,6 +187,14 @@ def run(run):
         for variant in ("first", "second"):
             if not compare(run, base["results"], out["results"], texts, "same-tree-" + variant, lambda g, v=variant: g + "/" + v):
                 return
+        for p_, per in out["results"].items():
+            if "<exception>" in per.get("codec-uses", {}):
+                run.inconclusive_because("the codec-use step of the reuse history failed: %s" % per["codec-uses"]["<exception>"])
+                return
+        if not compare(run, base["results"], out["results"], texts, "same-tree-after-the-python-codec-used-it", lambda g: g + "/after-codec"):
+            return
+        if not compare(run, base["results"], out["results"], texts, "output-directory-already-holds-an-earlier-run", lambda g: g + "/into-written-dir"):
+            return
         cpp_only = {p: {"cpp": m["cpp"]} for p, m in base["results"].items()}
         if not compare(run, cpp_only, out["results"], texts, "cpp-after-dbc-and-can_c-on-the-same-tree", lambda g: "cpp/after-others"):
             return
